@@ -20,6 +20,7 @@ package main
 import (
 	"fmt"
 	"os"
+	"strings"
 	"time"
 
 	"lunar/engine/actions"
@@ -65,6 +66,7 @@ type EngineCase struct {
 	InitOK bool     `json:"init_ok"`
 	Outs   []string `json:"outs"`
 	Ran    []int    `json:"retry_processor_ran"` // stage index or -1, per event
+	Kept   [][]int  `json:"counter_kept_after"`  // stages whose counter for the sequence is in the flow context after the event (not compared)
 }
 
 type PolEv struct {
@@ -202,24 +204,50 @@ type flowObs struct {
 	retryable bool   // the response met the retry conditions of some stage
 }
 
-// monitorFlow restates the flows-mode part of the property over what happened:
-// per (processor, sequence): retries between two "failed"/start <= attempts;
-// after "failed" the sequence starts afresh (every completed round hands out the
-// same number of retries; an open round never more than a completed one);
-// a response outside the retry conditions is never answered "retry".
+// sigCounterKept: finding F-C17b — a response outside the retry conditions does
+// not end the sequence in flows mode (the retry processor is not reached and
+// its counter stays in the flow context).
+const sigCounterKept = "flow-counter-kept:non-retryable-end"
+
+// monitorFlow restates the flows-mode part of the property over what happened.
+// A logical call of a sequence on a retry processor is ended by "failed" and by
+// a response of the sequence outside the retry conditions (the text: "ends the
+// sequence"). Per (processor, sequence):
+//   - retries within one call <= attempts (flow-bound);
+//   - a response outside the retry conditions is never answered "retry";
+//   - after the end of a call the next one starts afresh: every call that is
+//     ended by "failed" hands out the same number of retries as the first such
+//     call, an open call never more (flow-fresh-start);
+//   - "failed" before the call used its budget, where the retries of calls that
+//     were ended by a non-retryable response make up the difference, is the
+//     known root cause sigCounterKept (classifier: carried > 0 at a "failed"
+//     with call < attempts and call + carried == attempts).
+//
+// It does not demand exactly `attempts` retries ("at most").
 func monitorFlow(obs []flowObs, attempts func(proc int) int, cs any) []c.Hit {
 	var hits []c.Hit
 	add := func(sig, dem, ob string) {
 		hits = append(hits, c.Hit{Signature: sig, Demanded: dem, Observed: ob, Case: cs})
 	}
 	type key struct{ p, s int }
-	cur := map[key]int{}
-	first := map[key]int{} // retries of the first completed round
+	call := map[key]int{}    // retries of the current call
+	carried := map[key]int{} // retries since the latest failed that belong to calls ended by a non-retryable response
+	first := map[key]int{}   // retries of the first call ended by failed
 	done := map[key]bool{}
 	for i, o := range obs {
 		if !o.retryable && o.out == "retry" {
 			add("flow-retry-outside-conditions", "a response outside the retry conditions is never retried",
 				fmt.Sprintf("response #%d of sequence %d answered retry", i, o.seq))
+		}
+		if !o.retryable && o.out == "other" {
+			// the sequence is ended for every retry processor
+			for k := range call {
+				if k.s == o.seq {
+					carried[k] += call[k]
+					call[k] = 0
+				}
+			}
+			continue
 		}
 		if o.out != "retry" && o.out != "failed" {
 			continue
@@ -230,25 +258,30 @@ func monitorFlow(obs []flowObs, attempts func(proc int) int, cs any) []c.Hit {
 			a = 0
 		}
 		if o.out == "retry" {
-			cur[k]++
-			if cur[k] > a {
-				add("flow-bound", fmt.Sprintf("at most %d retries per sequence between two failures", a),
-					fmt.Sprintf("retry #%d for sequence %d on processor %d at response #%d", cur[k], o.seq, o.proc, i))
+			call[k]++
+			if call[k] > a {
+				add("flow-bound", fmt.Sprintf("at most %d retries per call of a sequence", a),
+					fmt.Sprintf("retry #%d for sequence %d on processor %d at response #%d", call[k], o.seq, o.proc, i))
 			}
-			if done[k] && cur[k] > first[k] {
-				add("flow-fresh-start", "after failed the sequence starts afresh (same budget as the first round)",
-					fmt.Sprintf("round after a failure got %d retries, the first round %d (sequence %d, response #%d)", cur[k], first[k], o.seq, i))
+			if done[k] && call[k] > first[k] {
+				add("flow-fresh-start", "after the end of a call the sequence starts afresh (same budget as the first call)",
+					fmt.Sprintf("call got %d retries, the first completed call %d (sequence %d, response #%d)", call[k], first[k], o.seq, i))
 			}
 			continue
 		}
 		// failed
-		if !done[k] {
-			done[k], first[k] = true, cur[k]
-		} else if cur[k] != first[k] {
-			add("flow-fresh-start", "after failed the sequence starts afresh (same budget as the first round)",
-				fmt.Sprintf("round ended after %d retries, the first round after %d (sequence %d, response #%d)", cur[k], first[k], o.seq, i))
+		switch {
+		case carried[k] > 0 && call[k] < a && call[k]+carried[k] == a:
+			add(sigCounterKept, "a response outside the retry conditions ends the sequence: a later call reusing the sequence id starts afresh",
+				fmt.Sprintf("response #%d: failed after %d of %d retries of this call; %d retries of calls of sequence %d that a non-retryable response had ended were still counted (processor %d)",
+					i, call[k], a, carried[k], o.seq, o.proc))
+		case !done[k]:
+			done[k], first[k] = true, call[k]
+		case call[k] != first[k]:
+			add("flow-fresh-start", "after the end of a call the sequence starts afresh (same budget as the first call)",
+				fmt.Sprintf("call ended by failed after %d retries, the first one after %d (sequence %d, response #%d)", call[k], first[k], o.seq, i))
 		}
-		cur[k] = 0
+		call[k], carried[k] = 0, 0
 	}
 	return hits
 }
@@ -264,18 +297,19 @@ var rangePresets = [][][2]int{
 }
 
 func execEngine(k *EngineCase) error {
-	k.Outs, k.Ran = nil, nil
+	k.Outs, k.Ran, k.Kept = nil, nil, nil
 	e, err := newEngine(k.Stages)
 	k.InitOK = err == nil
 	if err != nil {
 		return nil
 	}
 	for n, ev := range k.Events {
-		out, ran, err := e.respond(fmt.Sprintf("seq-%d", ev.Seq), fmt.Sprintf("tx-%d", n), ev.Status)
+		out, ran, kept, err := e.respond(fmt.Sprintf("seq-%d", ev.Seq), fmt.Sprintf("tx-%d", n), ev.Status, len(k.Stages))
 		if err != nil {
 			return err
 		}
 		k.Outs = append(k.Outs, out)
+		k.Kept = append(k.Kept, kept)
 		idx := -1
 		if ran != "" {
 			fmt.Sscanf(ran, "R%d", &idx)
@@ -498,7 +532,28 @@ func runEngine(o *c.Out, k EngineCase) {
 		}
 		return 0
 	}
-	for _, h := range monitorFlow(obs, att, Case{Engine: &k}) {
+	hits := monitorFlow(obs, att, Case{Engine: &k})
+	// the state itself: after a response outside the retry conditions the
+	// gateway holds no retry counter for the sequence
+	if k.InitOK {
+		for i, ev := range k.Events {
+			if !obs[i].retryable && k.Outs[i] == "other" && len(k.Kept[i]) > 0 {
+				hits = append(hits, c.Hit{Signature: sigCounterKept,
+					Demanded: "a response outside the retry conditions ends the sequence (the gateway forgets it)",
+					Observed: fmt.Sprintf("response #%d (status %d) of sequence %d: the flow context still holds the retry counter of stage(s) %v", i, ev.Status, ev.Seq, k.Kept[i]),
+					Case:     Case{Engine: &k}})
+				break
+			}
+		}
+	}
+	for _, h := range hits {
+		if h.Signature == sigCounterKept {
+			if strings.HasPrefix(h.Observed, "response #") && strings.Contains(h.Observed, ": failed after") {
+				o.Count("flowengine:F-C17b=early-failed")
+			} else {
+				o.Count("flowengine:F-C17b=counter-in-flow-context")
+			}
+		}
 		h.Suite, h.Index = "flowengine", idx
 		o.Hit(h)
 	}
